@@ -280,6 +280,12 @@ class Repo:
         self.sources = sources
         self.root = root
         self._mods: dict[str, Mod] = {}
+        try:
+            from . import sem
+
+            sem.register_signatures(self)
+        except AnalysisError:
+            pass
 
     @classmethod
     def from_disk(cls, root: str | None = None) -> "Repo":
